@@ -66,8 +66,8 @@ var c07Templates = []c07Tpl{
 			"let one () =\n  1\n",
 			"let two () =\n  2\n",
 		},
-		target: "let getv (b: GBox<int>) =\n  b.Value + one ()\n\nlet mkv (a:int) =\n  {Value=a}\n",
-		marks:  []string{"func getv(", "func mkv("},
+		target: "let getv (b: GBox<int>) =\n  b.Value + one ()\n\nlet mkvalue (a:int) =\n  {Value=a}\n",
+		marks:  []string{"func getv(", "func mkvalue("},
 		extra:  "type GBox_int = {Value: string; Extra: int}\n\nlet label (x: GBox_int) =\n  x.Value\n",
 	},
 }
@@ -180,7 +180,7 @@ func Harness_C07_Context() {
 	}
 
 	// unrelated definitions with symbolic identifiers
-	avoid := []string{"tgt", "idf", "one", "two", "cst", "let", "not", "and", "fun", "int", "any", "ext"}
+	avoid := []string{"tgt", "idf", "one", "two", "cst", "ptx", "let", "not", "and", "fun", "int", "any", "ext"}
 	n1 := c07Name("n1", avoid)
 	n2 := c07Name("n2", append(avoid, n1))
 	n3, n4 := "zed", "qux"
